@@ -4,6 +4,7 @@
 mod c12_sim;
 mod e_c02;
 mod e_c05;
+mod e_c11;
 mod e_c12;
 mod e_c13;
 mod e_c14;
@@ -25,6 +26,7 @@ fn dispatch(w: &[&str]) -> String {
         Some("set") => e_c13::handle(w),
         Some("cell") => e_c05::handle(w),
         Some("hdr") => e_c12::handle(w),
+        Some("qpack") => e_c11::handle(w),
         Some("wbuf") => e_c14::handle(w),
         Some("quinn") => e_c17::handle(w),
         Some("pint") | Some("huff") | Some("pstr") => e_c15::handle(w),
